@@ -9,11 +9,11 @@ import (
 	"path/filepath"
 	"testing"
 	"time"
+	"verifharness/internal/metricsx"
 
 	"pgregory.net/rapid"
 	"reservoir/cache"
 	"reservoir/config"
-	"reservoir/metrics"
 	"reservoir/utils/bytesize"
 	"reservoir/utils/duration"
 
@@ -58,7 +58,7 @@ var subComp = ev.Register("components-follow-limit",
 		os.MkdirAll(filepath.Join(dir, "var"), 0o755)
 		os.Chdir(dir)
 		defer os.Chdir(old)
-		metrics.Global = metrics.NewMetrics()
+		metricsx.Reset()
 		cfg := config.NewDefault()
 		px.SetBase(&cfg.Cache.MaxCacheSize, bytesize.ByteSize(highLimit))
 		px.SetBase(&cfg.Cache.CleanupInterval, duration.Duration(time.Hour))
